@@ -22,7 +22,8 @@ reg(Prop(
          'distinct = hash of the full operation history text.'
          ' pre_order iterators: a copy taken at every position is walked to the end, the original continues, saved positions stay valid. child_position is identity: a free-standing deep copy of a child is not found, deep-equal siblings are found at their own positions.'
          ' tree::map with a numbering function: the plain recursive model (node, then children left to right) numbers in pre-order.'
-         ' tree<double> with NaN values at every depth: == is the conjunction of the value comparisons and != its negation, also for a tree compared with itself.',
+         ' tree<double> with NaN values at every depth: == is the conjunction of the value comparisons and != its negation, also for a tree compared with itself.'
+         ' push_back / push_front of a node that is still attached to another root (moved from in place): the moved-from node keeps its parent link while it is listed.',
     assumptions=COMMON_ASSUMPTIONS + [
         'tree::map applies its function to a node before its children and to the children from left to right (what the recursive definition with a braced initializer evaluates; it decides the result only for functions with state)',
         'side condition: swap is only applied to operands that are distinct and not in an ancestor/descendant relation; move assignment to unrelated operands and to a target whose strict descendant is the source (hoisting), never from an ancestor (that would make a node its own child); copy assignment is applied to any two distinct nodes',
